@@ -502,13 +502,13 @@ fn run(name: &str, prop: &str, d: fn() -> Vec<String>, t: Option<fn() -> Vec<Str
     let want: Vec<String> = want.iter().map(|s| s.to_string()).collect();
     if got != want {
         let i = got.iter().zip(want.iter()).position(|(a, b)| a != b).unwrap_or(got.len().min(want.len()));
-        println!("{{\"case\":\"{}\",\"prop\":\"{}\",\"kind\":\"differs-from-reference\",\"got\":{:?},\"want\":{:?}}}", name, prop, got.get(i), want.get(i));
+        println!("{{\"case\":\"{}\",\"prop\":\"{}\",\"kind\":\"differs-from-reference\",\"got\":{:?},\"want\":{:?}}}", name, prop, got.get(i).map(|s| s.as_str()).unwrap_or("<nothing>"), want.get(i).map(|s| s.as_str()).unwrap_or("<nothing>"));
     }
     if let Some(t) = t {
         let tw = t();
         if tw != got {
             let i = got.iter().zip(tw.iter()).position(|(a, b)| a != b).unwrap_or(got.len().min(tw.len()));
-            println!("{{\"case\":\"{}\",\"prop\":\"{}\",\"kind\":\"decorated-differs-from-twin\",\"got\":{:?},\"want\":{:?}}}", name, prop, got.get(i), tw.get(i));
+            println!("{{\"case\":\"{}\",\"prop\":\"{}\",\"kind\":\"decorated-differs-from-twin\",\"got\":{:?},\"want\":{:?}}}", name, prop, got.get(i).map(|s| s.as_str()).unwrap_or("<nothing>"), tw.get(i).map(|s| s.as_str()).unwrap_or("<nothing>"));
         }
     }
     println!("{{\"case\":\"{}\",\"prop\":\"{}\",\"kind\":\"done\"}}", name, prop);
